@@ -708,6 +708,34 @@ pub fn init_returning(runtime: &[u8]) -> Vec<u8> {
     c
 }
 pub fn multitool_init() -> Vec<u8> { init_returning(&multitool_runtime()) }
+
+/// Gas-shape contracts (what an estimate must get right beyond the final charge):
+/// refunder: stores calldata word 0 into slots 0..32 (clearing non-zero slots earns refunds, so the
+/// gas needed up front exceeds the final gasUsed);
+/// burner: a loop of about two million gas; forwarder: CALLs the burner with all remaining gas and
+/// reverts if it failed (the 63/64 rule: the caller must hold more than the callee burns).
+pub fn refunder_runtime() -> Vec<u8> {
+    let mut a = Asm::new();
+    a.op(opc::PUSH0).op(opc::CALLDATALOAD).op(opc::PUSH0);
+    a.label("loop").op(opc::DUP1).pushn(32).op(opc::EQ).jumpi("end");
+    a.op(opc::DUP2).op(opc::DUP2).op(opc::SSTORE).pushn(1).op(opc::ADD).jump("loop");
+    a.label("end").op(opc::STOP);
+    a.finish()
+}
+pub fn burner_runtime() -> Vec<u8> {
+    let mut a = Asm::new();
+    a.pushn(77_000);
+    a.label("loop").pushn(1).op(0x90 /* SWAP1 */).op(opc::SUB).op(opc::DUP1).jumpi("loop");
+    a.op(opc::STOP);
+    a.finish()
+}
+pub fn forwarder_runtime(burner: Address) -> Vec<u8> {
+    let mut a = Asm::new();
+    a.op(opc::PUSH0).op(opc::PUSH0).op(opc::PUSH0).op(opc::PUSH0).op(opc::PUSH0).push_exact(burner.as_slice()).op(opc::GAS).op(opc::CALL);
+    a.jumpi("ok").op(opc::PUSH0).op(opc::PUSH0).op(opc::REVERT);
+    a.label("ok").op(opc::STOP);
+    a.finish()
+}
 /// init code that reverts
 pub fn init_reverting() -> Vec<u8> { vec![opc::PUSH0, opc::PUSH0, opc::REVERT] }
 /// bytes that are not a program (first opcode is undefined)
